@@ -140,6 +140,10 @@ func (m *proxyImpl) serveTarget(w http.ResponseWriter, r *http.Request) {
 		m.mu.Unlock()
 	}
 	w.Header().Set("X-App", "1")
+	// the application sets cookies of its own (session, CSRF token): the proxy's position cookie
+	// has to travel next to them
+	http.SetCookie(w, &http.Cookie{Name: "session", Value: "s1", Path: "/"})
+	http.SetCookie(w, &http.Cookie{Name: "csrf", Value: "t1", Path: "/"})
 	w.WriteHeader(200)
 	_, _ = w.Write([]byte("app\n"))
 }
@@ -208,9 +212,12 @@ func (m *proxyImpl) req(f []string) string {
 		replay = "-"
 	}
 	ck := "-"
+	appCookies := 0
 	for _, c := range resp.Cookies() {
 		if c.Name == lhttp.TXIDCookieName {
 			ck = c.Value
+		} else if c.Name == "session" || c.Name == "csrf" {
+			appCookies++
 		}
 	}
 	m.mu.Lock()
@@ -225,6 +232,9 @@ func (m *proxyImpl) req(f []string) string {
 	note := ""
 	if m.hitNote != "" {
 		note = " app=" + m.hitNote
+	}
+	if m.hit && resp.StatusCode == 200 && appCookies != 2 {
+		note += fmt.Sprintf(" app-cookies=%d/2", appCookies)
 	}
 	return fmt.Sprintf("status=%d target=%s replay=%s cookie=%s hitok=%s%s", resp.StatusCode, hit, replay, ck, hitok, note)
 }
